@@ -603,6 +603,20 @@ static std::string kd_pred(const vrt::J &row) {
   return j + "]";
 }
 
+// Edgebreaker rows with the position attribute (natt = 1): the assembler stores the symbols 2, 4, 6, ... = the signed values 1, 2, 3, ... -- value k is (3k+1, 3k+2, 3k+3) -- so the
+// first component of a point's position names the index of the value the decoder gave it
+static std::vector<int> eb_vidx(const Decoded &d, int natt, bool other) {
+  std::vector<int> v;
+  if (other || natt != 1 || !d.ok || !d.is_mesh || d.pc->num_attributes() < 1) return v;
+  const PointAttribute *att = d.pc->attribute(0);
+  for (PointIndex p(0); p < std::min<uint32_t>(d.pc->num_points(), 400); ++p) {
+    int32_t x[4] = {0, 0, 0, 0};
+    if (att->mapped_index(p).value() < att->size()) att->ConvertValue<int32_t>(att->mapped_index(p), std::min<int>(4, att->num_components()), x);
+    v.push_back((x[0] - 1) / 3);
+  }
+  return v;
+}
+
 static void probe_eb(const vrt::J &row, long index, EbStats *st) {
   const std::string &pred = row["out"].s;
   // every row twice: with the position attribute (natt = 1) and without any attribute decoder (natt = 0); the header-only rows and the valence
@@ -615,6 +629,7 @@ static void probe_eb(const vrt::J &row, long index, EbStats *st) {
     bool enc_same = true;
     const std::vector<char> bytes = kd ? assemble_kd(row, &enc_same) : assemble_eb(row, natt);
     std::vector<char> buf(bytes);
+    if (getenv("VERIF_DUMP") && natt == 1) { std::ofstream df(getenv("VERIF_DUMP"), std::ios::binary); df.write(bytes.data(), (std::streamsize)bytes.size()); }
     const uint64_t h0 = vrt::fnv1a(buf.data(), buf.size());
     Decoded d;
     bool tolerated_bad_alloc = false;
@@ -631,6 +646,7 @@ static void probe_eb(const vrt::J &row, long index, EbStats *st) {
     out.begin("EbProbe").i("row", index).s("mode", row["mode"].s.empty() ? "std" : row["mode"].s).i("natt", natt).s("s", row["s"].s).i("nv", row["nv"].n).i("nf", row["nf"].n).i("nss", row["nss"].n)
         .s("pred", pred).s("pk", pred.substr(0, pred.find(':'))).i("pred_np", row["np"].n)
         .arr("pred_faces", row["faces"].ints()).b("ok", d.ok).b("modified", modified).b("bad_alloc", tolerated_bad_alloc)
+        .arr("vidx", eb_vidx(d, natt, kd || ia)).arr("pred_vidx", row["vidx"].ints()).s("trav", row["trav"].s)
         .b("enc_same", enc_same).raw("pts", (kd || ia) && d.ok ? kd_points(*d.pc) : "[]").raw("pred_pts", kd || ia ? kd_pred(row) : "[]")
         .i("np", d.ok ? (long long)d.pc->num_points() : 0).arr("faces", faces).raw("sv", d.ok ? struct_json(*d.pc, d.is_mesh) : "{\"np\":0,\"nf\":0,\"maxface\":-1,\"atts\":[]}").end();
     fflush(out.f);
